@@ -84,6 +84,20 @@ def run(ctx):
         if must and dec != enc(mu, M):
             ctx.report('decrypt-wrong', '%s LWE ciphertext, n=%d Msize=%d message %d: decrypts to %d instead of %d (phase error %s units, threshold 2^31/Msize = %d)' % (
                 kind, n, M, mu, dec, enc(mu, M), e if e is not None else vlib.w32(ph - enc(mu, M)), 2**31 // M), {'case': l[:10000], 'kind': kind, 'message': mu, 'decrypted': dec, 'expected': enc(mu, M)})
+    # ---- TLWE encryptions of one process with DIFFERENT noise levels, coarse and noisy first, fine and quiet afterwards (a noise level that
+    #      sticks to the first encryption of the process shows only in this order); Msize * alpha = 1/20 throughout
+    for k in (1, 2):
+        tkey = [rng.randrange(2) for _ in range(k * N)]
+        items = [(2**40 // 40, 2, 1)] + [(2**40 // (20 * M), M, rng.randrange(M)) for M in (8, 64, 1000, 65536, 5, 2048)] + [(0, 1024, 77), (2**40 // 40, 2, 0), (2**40 // (20 * 300), 300, 299)]
+        line, r = E.lib(17, [k, N] + tkey + [len(items)] + [x for it in items for x in it], sd + 900 + k, rng.randrange(30), 0, 0)
+        ctx.count(('tlwe-noise-sequence', k))
+        if r is None: ctx.report('tlwe-encrypt-crash', 'a sequence of TLWE encryptions with different noise levels died (k=%d)' % k, {'case': line[:20000]}); continue
+        for q, (au, M, mu) in enumerate(items):
+            okT, bad = r['res'][2 * q], r['res'][2 * q + 1]
+            if not okT or bad:
+                ctx.report('tlwe-decrypt-wrong', 'TLWE k=%d, encryption %d of one process (Msize=%d, alpha=%.3g = 1/(20 Msize), after encryptions at other noise levels): tLweSymDecryptT %s, %d of %d coefficients of tLweSymDecrypt are wrong' % (
+                           k, q, M, au / 2.0**40, 'right' if okT else 'wrong', bad, N), {'case': line[:20000], 'position': q, 'Msize': M, 'alpha_units': au})
+                break
     # ---- TLWE: all decryptions of all keys run in ONE process, keys alternating ("every key": the result must not depend on
     #      which key the process decrypted with before; key objects are created and destroyed per case by the harness)
     tjobs = []; tkeys = {}
